@@ -38,7 +38,7 @@ ASSUMPTIONS = [
     "skipped at k-points where the smallest band gap is < 1e-3 (evaluate_k averages bands closer than 1e-4) or eps_H/gap > 1e-4",
     "point-group generators are lattice-compatible by construction (checked by the harness before use)",
 ]
-MIN_NONTRIVIAL = {"quick": 60, "thorough": 800}
+MIN_NONTRIVIAL = {"quick": 150, "thorough": 3000}
 
 EPS_TXT = 6e-9  # %15.8e : 9 significant digits -> relative rounding error <= 5e-9
 EPS_BIN = 1e-14
@@ -516,7 +516,7 @@ def check_hr(case):
 
 
 SUBS = [
-    Sub("npz", _case_st("npz"), check_npz, quick=120, thorough=2400),
-    Sub("tb", _case_st("tb"), check_tb, quick=120, thorough=2400),
-    Sub("hr", _case_st("hr"), check_hr, quick=120, thorough=2400),
+    Sub("npz", _case_st("npz"), check_npz, quick=400, thorough=16000),
+    Sub("tb", _case_st("tb"), check_tb, quick=400, thorough=16000),
+    Sub("hr", _case_st("hr"), check_hr, quick=400, thorough=16000),
 ]
